@@ -231,25 +231,33 @@ Definition cstep (s : shared) (c : cons) (bats : list nat) (ch : nat) : shared *
 
 (** Starting a call (only when idle).  pending / wait / forever need [&mut SignalsInfo], so a
     Forever iterator created earlier is gone; Forever::next and poll_signal need a live
-    SignalIterator.  A new poll by the asynchronous caller consumes the notification. *)
-Definition ccall (s : shared) (c : cons) (o : copk) : shared * cons * list ev :=
+    SignalIterator.  A new poll by the asynchronous caller consumes the notification.
+    A SignalIterator dropped before its batch is exhausted is recorded (ghost) in [gone]: it is a
+    batch that was handed out and not drained. *)
+Definition abandon (c : cons) (gone : list nat) : list nat :=
+  match cit c with
+  | Some p => if p <? MAX_SIGNUM then gone ++ [p] else gone
+  | None => gone
+  end.
+
+Definition ccall (s : shared) (c : cons) (gone : list nat) (o : copk) : shared * cons * list nat * list ev :=
   match cpc_ c with
   | CIdle =>
       let e := mkEv 30 0 (opk_z o) 0 1 in
       match o with
-      | OPending => (s, mkCons CFlush o None RNone None 0, [e])
-      | OWait => (s, mkCons CWClosed o None RNone None 0, [e])
-      | OForever => (s, mkCons CFlush o None RNone None 0, [e])
+      | OPending => (s, mkCons CFlush o None RNone None 0, abandon c gone, [e])
+      | OWait => (s, mkCons CWClosed o None RNone None 0, abandon c gone, [e])
+      | OForever => (s, mkCons CFlush o None RNone None 0, abandon c gone, [e])
       | OFNext => match cit c with
-                  | Some _ => (s, mkCons CP1 o (cit c) RNone None 0, [e])
-                  | None => (s, c, [])
+                  | Some _ => (s, mkCons CP1 o (cit c) RNone None 0, gone, [e])
+                  | None => (s, c, gone, [])
                   end
       | OPoll => match cit c with
-                 | Some _ => (set_pipe s (pipe s) (armed s) false, mkCons CP1 o (cit c) RNone None 0, [e])
-                 | None => (s, c, [])
+                 | Some _ => (set_pipe s (pipe s) (armed s) false, mkCons CP1 o (cit c) RNone None 0, gone, [e])
+                 | None => (s, c, gone, [])
                  end
       end
-  | _ => (s, c, [])
+  | _ => (s, c, gone, [])
   end.
 
 (** One load of Pending::next on a handed-out batch at position [p]. *)
@@ -262,38 +270,38 @@ Definition bstep (s : shared) (p : nat) : shared * nat * list ev :=
   else (s, p, []).
 
 (** ---- worlds, labels, runs ---- *)
-Record world := mkW { w_sh : shared; w_co : cons; w_bats : list nat; w_fr : list frame }.
+Record world := mkW { w_sh : shared; w_co : cons; w_bats : list nat; w_gone : list nat; w_fr : list frame }.
 
 Inductive label :=
 | LCall (o : copk) | LCons (ch : nat) | LBatch (k : nat) | LStep (k : nat)
 | LSpawnH (sg : nat) (info : Z) | LSpawnK | LSpawnA (sg : nat).
 
-Definition w_init (raw : bool) (c : nat) : world := mkW (sh_init raw c) co_init [] [].
+Definition w_init (raw : bool) (c : nat) : world := mkW (sh_init raw c) co_init [] [] [].
 
 Definition wstep (w : world) (l : label) : world * list ev :=
   match l with
-  | LCall o => let '(s, c, es) := ccall (w_sh w) (w_co w) o in (mkW s c (w_bats w) (w_fr w), es)
-  | LCons ch => let '(s, c, b, es) := cstep (w_sh w) (w_co w) (w_bats w) ch in (mkW s c b (w_fr w), es)
+  | LCall o => let '(s, c, g, es) := ccall (w_sh w) (w_co w) (w_gone w) o in (mkW s c (w_bats w) g (w_fr w), es)
+  | LCons ch => let '(s, c, b, es) := cstep (w_sh w) (w_co w) (w_bats w) ch in (mkW s c b (w_gone w) (w_fr w), es)
   | LBatch k =>
       match nth_error (w_bats w) k with
-      | Some p => let '(s, p', es) := bstep (w_sh w) p in (mkW s (w_co w) (upd (w_bats w) k p') (w_fr w), es)
+      | Some p => let '(s, p', es) := bstep (w_sh w) p in (mkW s (w_co w) (upd (w_bats w) k p') (w_gone w) (w_fr w), es)
       | None => (w, [])
       end
   | LStep k =>
       match nth_error (w_fr w) k with
-      | Some f => let '(s, f', es) := fstep (w_sh w) f in (mkW s (w_co w) (w_bats w) (upd (w_fr w) k f'), es)
+      | Some f => let '(s, f', es) := fstep (w_sh w) f in (mkW s (w_co w) (w_bats w) (w_gone w) (upd (w_fr w) k f'), es)
       | None => (w, [])
       end
   | LSpawnH sg info =>
       (* a delivery reaches the action only once add_signal has published it *)
       if watch (w_sh w) sg
-      then (mkW (set_begun (w_sh w) (fupd (begun (w_sh w)) sg (begun (w_sh w) sg ++ [info]))) (w_co w) (w_bats w)
+      then (mkW (set_begun (w_sh w) (fupd (begun (w_sh w)) sg (begun (w_sh w) sg ++ [info]))) (w_co w) (w_bats w) (w_gone w)
                 (w_fr w ++ [mkFrame (FH sg info) F0]), [])
       else (w, [])
-  | LSpawnK => (mkW (w_sh w) (w_co w) (w_bats w) (w_fr w ++ [mkFrame FK F0]), [])
+  | LSpawnK => (mkW (w_sh w) (w_co w) (w_bats w) (w_gone w) (w_fr w ++ [mkFrame FK F0]), [])
   | LSpawnA sg =>
       (* add_signal asserts 0 <= signal < MAX_SIGNUM (C14) *)
-      if sg <? MAX_SIGNUM then (mkW (w_sh w) (w_co w) (w_bats w) (w_fr w ++ [mkFrame (FA sg) F0]), []) else (w, [])
+      if sg <? MAX_SIGNUM then (mkW (w_sh w) (w_co w) (w_bats w) (w_gone w) (w_fr w ++ [mkFrame (FA sg) F0]), []) else (w, [])
   end.
 
 Fixpoint run (w : world) (ls : list label) : world * list ev :=
